@@ -101,6 +101,33 @@ func buildStateGraph(p *core.Program, a *Anchors, r *core.Result) *stateGraph {
 	initFn := a.Fn("xss.init")
 	nextFn := a.Fn("xss.next")
 	g.Init = initFn
+	// methods that are taken as function values somewhere (h.stateX, (*T).stateX)
+	boundSomewhere := map[*ssa.Function]bool{}
+	for _, fn := range p.SourceFuncs(nil) {
+		for _, b := range fn.Blocks {
+			for _, ins := range b.Instrs {
+				for _, op := range ins.Operands(nil) {
+					if op == nil || *op == nil {
+						continue
+					}
+					switch (*op).(type) {
+					case *ssa.MakeClosure, *ssa.Function:
+						if call, isCall := ins.(ssa.CallInstruction); isCall && call.Common().Value == *op {
+							continue // the callee of a direct call
+						}
+						if t := boundTarget(p, *op); t != nil {
+							boundSomewhere[t] = true
+						}
+					}
+				}
+				if mc, ok := ins.(*ssa.MakeClosure); ok {
+					if t := boundTarget(p, mc); t != nil {
+						boundSomewhere[t] = true
+					}
+				}
+			}
+		}
+	}
 	for i := 0; i < ms.Len(); i++ {
 		fn := p.SSA.MethodValue(ms.At(i))
 		if fn == nil || fn == initFn || fn == nextFn || fn.Blocks == nil {
@@ -111,6 +138,11 @@ func buildStateGraph(p *core.Program, a *Anchors, r *core.Result) *stateGraph {
 			continue
 		}
 		if b, ok := res.At(0).Type().Underlying().(*types.Basic); !ok || b.Kind() != types.Bool {
+			continue
+		}
+		// an accessor (`more() bool { return h.pos < h.len }`) that is only ever called,
+		// never taken as a function value, is not a state
+		if _, pure := ssax.PureExprFunc(fn); pure && !boundSomewhere[fn] {
 			continue
 		}
 		g.Nodes[fn] = &sgNode{Fn: fn}
@@ -134,6 +166,30 @@ func buildStateGraph(p *core.Program, a *Anchors, r *core.Result) *stateGraph {
 				}
 				if _, isParam := st.Val.(*ssa.Parameter); isParam {
 					parametric[fn] = true
+				}
+			}
+		}
+	}
+	// … and functions that hand one of their own parameters on to such a helper
+	// (`emitUpTo(type, end)` calling `emitAt(type, pos, end-pos)`)
+	for changed := true; changed; {
+		changed = false
+		for _, fn := range p.SourceFuncs(nil) {
+			if parametric[fn] {
+				continue
+			}
+			for _, ci := range ssax.Calls(fn) {
+				to := ci.Common().StaticCallee()
+				if to == nil || !parametric[to] {
+					continue
+				}
+				for _, arg := range ci.Common().Args {
+					if prm, isParam := arg.(*ssa.Parameter); isParam && prm.Parent() == fn && !isStatePtr(prm.Type(), g.stName) {
+						if !parametric[fn] {
+							parametric[fn] = true
+							changed = true
+						}
+					}
 				}
 			}
 		}
@@ -571,67 +627,35 @@ func localTableEntry(p *core.Program, sc *ssax.SCCP, v ssa.Value) *ssa.Function 
 // localTableFuncs: v is a load of a function-typed entry (or field of an entry) of a
 // local array literal; returns every function stored in that column.
 func localTableFuncs(p *core.Program, v ssa.Value) ([]*ssa.Function, bool) {
-	if ct, ok := v.(*ssa.ChangeType); ok {
-		v = ct.X
-	}
-	ld, ok := v.(*ssa.UnOp)
-	if !ok || ld.Op != token.MUL {
-		return nil, false
-	}
-	field := -1
-	addr := ld.X
-	if fa, ok := addr.(*ssa.FieldAddr); ok {
-		field = fa.Field
-		addr = fa.X
-	}
-	// the row pointer may be a variable `row := &table[i]`
-	ia, ok := addr.(*ssa.IndexAddr)
+	root, path, ok := ssax.TableRead(v)
 	if !ok {
 		return nil, false
 	}
-	base := ia.X
-	if sl, isSl := base.(*ssa.Slice); isSl && sl.Low == nil && sl.High == nil {
-		base = sl.X
+	al, isAl := root.(*ssa.Alloc)
+	if !isAl {
+		return nil, false
 	}
-	al, ok := base.(*ssa.Alloc)
-	if !ok || al.Referrers() == nil {
+	vals, _, ok := ssax.LocalColumn(al, path)
+	if !ok {
 		return nil, false
 	}
 	var out []*ssa.Function
-	for _, ref := range *al.Referrers() {
-		wa, ok := ref.(*ssa.IndexAddr)
-		if !ok || wa.Referrers() == nil {
-			continue
+	for _, sv := range vals {
+		f := boundTarget(p, sv)
+		if f == nil {
+			return nil, false
 		}
-		_, isConst := ssax.ConstInt(wa.Index)
-		for _, r2 := range *wa.Referrers() {
-			var st *ssa.Store
-			switch y := r2.(type) {
-			case *ssa.Store:
-				if field < 0 && y.Addr == ssa.Value(wa) {
-					st = y
-				}
-			case *ssa.FieldAddr:
-				if y.Field == field && y.Referrers() != nil {
-					for _, r3 := range *y.Referrers() {
-						if s3, ok := r3.(*ssa.Store); ok && s3.Addr == ssa.Value(y) {
-							st = s3
-						}
-					}
-				}
-			}
-			if st == nil {
-				continue
-			}
-			if !isConst {
-				return nil, false
-			}
-			f := boundTarget(p, st.Val)
-			if f == nil {
-				return nil, false
-			}
-			out = append(out, f)
-		}
+		out = append(out, f)
 	}
 	return out, len(out) > 0
+}
+
+// isStatePtr: t is *T with T the tokenizer state type.
+func isStatePtr(t types.Type, stName string) bool {
+	pt, ok := t.Underlying().(*types.Pointer)
+	if !ok {
+		return false
+	}
+	n, ok := pt.Elem().(*types.Named)
+	return ok && n.Obj().Name() == stName
 }
